@@ -97,11 +97,20 @@ def run(tier, rep):
     if tier == 'quick':
         wcfg = [w for i, w in enumerate(wcfg) if i % 4 == vlib.SEED % 4]
     res2, d2 = dxlib.run_dx('plain', wcfg, 'c02w', 'A,B1', 'ref', phases=1, deadline=600)
+    # layer A of the whole grid again under squeezed default streams (see C01)
+    squeezes = ['0.33,0.67'] if tier == 'quick' else dxlib.SQUEEZES
+    ressq = []
+    for sq in squeezes:
+        rs, ds = dxlib.run_dx('plain', grid(), 'c02s', 'A', 'ref', phases=1, deadline=600, extra=['--squeeze', sq, '--horizon', '30000'])
+        for r in rs:
+            r['squeeze_pass'] = sq
+        ressq += rs
+    rep.coverage['squeezed_default_streams'] = list(squeezes)
     acc_cfg = [r['config'] for r in accepted if 'crashed' not in r]
     chain = chain_cfgs(acc_cfg, wcfg, tier)
     res3, d3 = dxlib.run_dx('plain', chain, 'c02c', 'A' if tier == 'quick' else 'A,B1', 'ref', phases=1, deadline=600)
     rep.coverage['reinitialisation_chains'] = len(res3)
-    c01.aggregate(rep, res + deep + res18 + res2 + res3, True, ('ref',), 'genbbsub',
+    c01.aggregate(rep, res + deep + res18 + res2 + res3 + ressq, True, ('ref',), 'genbbsub',
                   'configurations = every (isotope, level 0..17, mode 1..20) the reference GENBBsub accepts (grid of %d requests enumerated, acceptance '
                   'compared on each) plus energy windows on the window-capable modes; per configuration: same initialisation stream on both sides '
                   '(toallevents, deviates consumed and the 4300-bin first-lepton spectrum table compared), then layers %s of the deviate explorer '
